@@ -741,7 +741,14 @@ def inject_fault(rng, r, kind=None):
         if not cands:
             return None
         n = rng.choice(cands)
-        n["resources"].append({"name": "own_cost", "type": "additive", "value": E.num(1)})
+        # the resource of its own bears a fresh name, or the name of a resource of the repeated child (a constant, or the very
+        # reference `child.resource` that preprocessing would add: the routine is ill-formed all the same)
+        kid_res = [(c["name"], x["name"]) for c in n["children"] for x in c["resources"]]
+        if kid_res and rng.random() < 0.6:
+            cn, rn = rng.choice(kid_res)
+            n["resources"].append({"name": rn, "type": "additive", "value": rng.choice([E.num(5), E.sym(f"{cn}.{rn}")])})
+        else:
+            n["resources"].append({"name": "own_cost", "type": "additive", "value": E.num(1)})
     return r, kind
 
 
